@@ -113,7 +113,9 @@ Bump(aw, t) == [n |-> (IF aw.t = t THEN aw.n ELSE 0) + 1, t |-> t]
 \* an action timer or internal timer fired (hook record)
 OnFired(o0, ln) ==
   LET s == Side(ln.c)  m == ln.m  t == ln.t
-      o == Advance(o0, t)
+      \* a timer that is due later than the current instant may fire before the
+      \* simulator moves time there (pick_next recursion): time is not advanced here
+      o == SFlag(o0, t >= o0.now, "TimeBackwards", "")
   IN IF ~ValidM(o, s, m) THEN SFlag(o, FALSE, "EventForUnknownMachine", "") ELSE
   IF ln.w = "timer"
   THEN LET tm == o.timer[s][m + 1]
@@ -126,7 +128,11 @@ OnFired(o0, ln) ==
        IN IF ~ok THEN o1
           ELSE IF pa.kind = "SendPadding"
           THEN [o1 EXCEPT !.pend[s][m + 1] = NoPend, !.awPad[s][m + 1] = Bump(@, t)]
-          ELSE LET b   == o.blk[s]
+          ELSE LET b0  == o.blk[s]
+                   \* a period that ran out before this action fires has ended (its
+                   \* BlockingEnd is owed): the action starts a new period
+                   over == b0.active /\ b0.until <= t
+                   b   == IF over THEN NoBlk ELSE b0
                    end == t + pa.duration
                    nb  == IF ~b.active
                           THEN [active |-> TRUE, since |-> t, until |-> end, allBypass |-> pa.bypass,
@@ -135,7 +141,8 @@ OnFired(o0, ln) ==
                           THEN [b EXCEPT !.until = end, !.allBypass = @ /\ pa.bypass,
                                          !.lastBypass = pa.bypass, !.zero = pa.duration = 0]
                           ELSE b
-               IN [o1 EXCEPT !.pend[s][m + 1] = NoPend, !.awBlk[s][m + 1] = Bump(@, t), !.blk[s] = nb]
+               IN [SFlag(o1, ~over, "BlockingEndMissed", IF b0.zero THEN "zero-duration" ELSE "")
+                     EXCEPT !.pend[s][m + 1] = NoPend, !.awBlk[s][m + 1] = Bump(@, t), !.blk[s] = nb]
 
 \* earliest-sent packet in flight towards side s of the given kind that can have arrived by t
 MatchIdx(o, s, p, t) ==
